@@ -3,6 +3,7 @@
 package system
 
 import (
+	"math/big"
 	"time"
 
 	dtpb "github.com/google/fhir/go/proto/google/fhir/proto/r4/core/datatypes_go_proto"
@@ -100,6 +101,27 @@ func VerifHarness_C05_NumberPairs() {
 	lt, err := a2.Less(b2)
 	gt, err2 := b2.Less(a2)
 	verifrt.Assert(err == nil && err2 == nil && bool(lt) == (cmp < 0) && bool(gt) == (cmp > 0), "numbers-ordered-by-exact-value")
+	verifrt.Reach("end")
+}
+
+// C05-E1 numbers with many decimal places compare by their exact value too: no digit is beyond the comparison
+// (twelve places against twelve or nine; coefficients symbolic up to fourteen digits).
+func VerifHarness_C05_DecimalsOfManyPlaces() {
+	da := verifrt.NondetDecimalDigits("a", 12, 14)
+	scaleB := []int{12, 9}[verifrt.Choose("b.scale", 2)]
+	db := verifrt.NondetDecimalDigits("b", scaleB, 14-(12-scaleB))
+	ca, cb := da.Coefficient(), db.Coefficient()
+	if scaleB == 9 {
+		cb = new(big.Int).Mul(cb, big.NewInt(1000))
+	}
+	cmp := ca.Cmp(cb)
+	a, b := Decimal(da), Decimal(db)
+	eq, has := TryEqual(a, b)
+	verifrt.Assert(has && eq == (cmp == 0), "numbers-equal-by-exact-value")
+	lt, err := a.Less(b)
+	gt, err2 := b.Less(a)
+	verifrt.Assert(err == nil && err2 == nil && bool(lt) == (cmp < 0) && bool(gt) == (cmp > 0), "numbers-ordered-by-exact-value")
+	verifrt.Assert(!(eq && bool(lt)) && !(eq && bool(gt)), "at-most-one-of-less-equal-greater")
 	verifrt.Reach("end")
 }
 
